@@ -127,6 +127,15 @@ where
                 // comparisons
                 rep.count("transitions", 4);
                 let cmp = guard(|| (qa == qb, qa != qb, PartialOrd::partial_cmp(&qa, &qb), qa < qb));
+                // every relational form (operators and the PartialOrd methods they desugar to)
+                rep.count("transitions", 6);
+                let rel = guard(|| [qa <= qb, qa > qb, qa >= qb, PartialOrd::le(&qa, &qb), PartialOrd::gt(&qa, &qb), PartialOrd::ge(&qa, &qb), PartialOrd::lt(&qa, &qb)]);
+                let want_rel = if same_unit { [a <= bb, a > bb, a >= bb, a <= bb, a > bb, a >= bb, a < bb] } else { [false; 7] };
+                match rel {
+                    Ok(r) if r == want_rel => rep.inc("relational_forms_ok"),
+                    Ok(r) => rep.violation("C10/ordering/relational-forms", mk_case("<= > >= le gt ge lt"), format!("{:?}", r), format!("{:?}", want_rel)),
+                    Err(p) => rep.violation("C10/panic", mk_case("<= > >="), format!("panic: {p}"), format!("{:?}", want_rel)),
+                }
                 match cmp {
                     Err(p) => rep.violation("C10/panic", mk_case("compare"), format!("panic: {p}"), "comparison results".into()),
                     Ok((eq, ne, pc, lt)) => {
